@@ -32,6 +32,11 @@ ALLOWED_AXIOMS = {
 ALLOWED_PREFIXES = ("PrimFloat.", "FloatAxioms.", "Uint63.", "PrimInt63.", "Uint63Axioms.", "FloatOps.",
                     "SpecFloat.", "PArray.", "Sint63.", "Uint63Axioms")
 
+# Coq's primitive float / 63-bit integer operations (Print Assumptions lists them; they are not axioms of ours)
+PRIMITIVES = set("float classify abs sqrt opp eqb ltb leb compare mul add sub div of_uint63 normfr_mantissa frshiftexp "
+                 "ldshiftexp next_up next_down int lsl lsr land lor lxor asr mulc mod divs mods ltsb lesb addc addcarryc "
+                 "subc subcarryc diveucl diveucl_21 addmuldiv compares head0 tail0".split())
+
 FORBIDDEN = [r"\bAdmitted\b", r"\badmit\b", r"\bAxiom\b", r"\bAxioms\b", r"\bParameter\b", r"\bParameters\b",
              r"\bConjecture\b", r"\bUnset\s+Guard", r"bypass_check", r"\bAdmit\s+Obligations\b",
              r"type-in-type", r"impredicative-set", r"Unset\s+Universe\s+Checking",
@@ -179,7 +184,13 @@ class Ctx:
         for th, b in zip(theorems, blocks):
             ax = []
             if b.startswith("Axioms:"):
-                ax = re.findall(r"(?m)^([A-Za-z_][\w.']*)\s*(?::|$)", b[len("Axioms:"):])
+                for nm, ty in re.findall(r"(?m)^([A-Za-z_][\w.']*)\s*:\s*([^\n]*)", b[len("Axioms:"):]):
+                    # an unqualified primitive is recognised by its name AND by a type over float/int/bool only
+                    if nm in PRIMITIVES and re.fullmatch(r"[\s\->()*]*((PrimInt63\.)?int|float|bool|Set|comparison|float_class|PrimFloat\.float_class|carry)?([\s\->()*]+((PrimInt63\.)?int|float|bool|Set|comparison|float_class|carry\s*\(?(PrimInt63\.)?int\)?))*[\s()]*", ty):
+                        ax.append("PrimFloat." + nm if "float" in ty or nm == "float" else "PrimInt63." + nm)
+                    else:
+                        ax.append(nm)
+                ax += [a for a in re.findall(r"(?m)^([A-Za-z_][\w.']*)\s*$", b[len("Axioms:"):])]
             axioms[th] = ax
             for a in ax:
                 if a in ALLOWED_AXIOMS or a.startswith(ALLOWED_PREFIXES):
@@ -367,7 +378,7 @@ def run_property(pid, tier, seed):
         "checker_cmd": "coqc 8.16.1 (make -f Makefile.coq; coqc theories/<Prop_Cxx>.v with Print Assumptions); vm_compute only",
         "trusted_base": sorted(set(["Coq 8.16.1 kernel + vm_compute", "primitive Uint63/float evaluation in generated case files",
                                     "Go harness + python driver (correspondence)"] +
-                                   ["axiom:" + a for axs in axioms.values() for a in axs] +
+                                   [("primitive:" if a.startswith(("PrimFloat.", "PrimInt63.")) else "axiom:") + a for axs in axioms.values() for a in axs] +
                                    list(getattr(mod, "TRUSTED", [])))),
         "theorems": theorems,
         "axioms_by_theorem": axioms,
